@@ -206,17 +206,22 @@ def run(ctx):
 
     alld = []
 
-    def dis(d):
-        nonlocal ndis, first
-        ndis += 1
-        first = first or d
-        alld.append(d)
-
     def bad(w, what):
         nonlocal nbad
         nbad += 1
         if nbad <= 3:
             ctx.violation(w, what)
+
+    def dis(d):
+        nonlocal ndis, first
+        ndis += 1
+        first = first or d
+        alld.append(d)
+        # the property names the reference itself: "the bytes produced are the ones an independent encoder written directly from the
+        # CIP layout tables yields" - a produce that differs from the reference encoder (Model.Codec) is a failing input, not only a
+        # broken correspondence
+        if str(d.get('kind', '')).endswith('produce') and isinstance(d.get('impl'), str) and not d['impl'].startswith('EXC') and d.get('model') not in (None, 'BAD'):
+            bad(dict(d, reference_encoder=d['model']), 'the bytes produced differ from the ones the layout-table encoder yields for the same field values')
 
     # ---- A. elements: scalars, strings, EPATH, status ------------------------------------------------------
     cls = {193: parser.BOOL, 194: parser.SINT, 195: parser.INT, 196: parser.DINT, 197: parser.LINT, 198: parser.USINT,
@@ -370,7 +375,7 @@ def run(ctx):
     for _ in range(500 if ctx.thorough else 120):
         ids = dict(serial=rng.choice([0, 1, 65535, rng.getrandbits(16)]), vendor=rng.choice([0, 65535, rng.getrandbits(16)]),
                    oserial=rng.choice([0, 2**32 - 1, rng.getrandbits(32)]))
-        app = bytes(rng.getrandbits(8) for _ in range(rng.choice([0, 0, 2, 4, 10, 254])))
+        app = bytes(rng.getrandbits(8) for _ in range(rng.choice([0, 0, 2, 4, 10, 254, 1, 3, 5, 253])))     # odd lengths travel padded to a whole word
         k = rng.choice(['fo_ok', 'fo_fail', 'fo_fail', 'fc_req', 'fc_ok', 'fc_min'])
         if k == 'fo_ok':
             m = dict(ids, kind=k, svc=rng.choice([0xD4, 0xDB]), otid=rng.getrandbits(32), toid=rng.choice([0, 2**32 - 1, rng.getrandbits(32)]),
@@ -386,7 +391,9 @@ def run(ctx):
         else:
             m = dict(kind=k, status=(rng.choice([1, 5, 0xFF]), [rng.choice([0x107, 0xFFFF]) for _ in range(rng.randint(0, 2))]))
         cms.append(m)
-    mbs = model_enc(11, 0, [K.cm_tree(m) for m in cms])
+    def padded(m):
+        return dict(m, app=m['app'] + b'\x00') if len(m.get('app', b'')) % 2 else m
+    mbs = model_enc(11, 0, [K.cm_tree(padded(m)) for m in cms])
     for m, mb in zip(cms, mbs):
         kinds['cm/' + m['kind']] = kinds.get('cm/' + m['kind'], 0) + 1
         try:
@@ -401,7 +408,7 @@ def run(ctx):
                 back = K.impl_parse_cm(ib)
             except Exception as e:
                 back = 'EXC ' + type(e).__name__
-            if back != m:
+            if back != padded(m):
                 bad(dict(msg=repr(m)[:500], bytes=ib.hex()[:300], parsed=repr(back)[:500]),
                     'Connection Manager message does not parse back to the encoded fields')
     cov['evaluations'] = sum(kinds.values())
